@@ -160,7 +160,9 @@ Exec(s, ri, ws) ==
   ELSE CASE
   (* ------------------------------------------------------------------ MOV *)
   r.mn = "MOV" ->
-    IF ovl THEN AnyR(s, ri)
+    IF ovl THEN (* the register result is not specified, but the operand's effective address - hence the *)
+                (* charge (C20) - is: the address register's value before / after the adjustment       *)
+                (IF accOK /\ ~odd THEN [AnyR(s, ri) EXCEPT !.cyc = cost(ea, -1, -1)] ELSE AnyR(s, ri))
     ELSE IF ~accOK THEN ErrR(s, ri)
     ELSE LET v == CASE a[1] = "R" -> RegRead(s.er, sz, Field(ws, a))
                     [] a[1] = "I8" -> <<0, ws[1] % 256>>
